@@ -87,6 +87,16 @@ def run(res, f, tier):
             res.violation("C02|compose|%s" % m["kind"],
                           "node kind %s does not pass its sub-results to its operator as specified (operand order / result)" % m["kind"],
                           {"expected": sorted(miss_w - unex_w)[:4], "actual": sorted(unex_w - miss_w)[:4]})
+    # the lazy nodes have no operator function; their rows for a None or otherwise non-boolean condition / operand
+    # ("a type error") are table cells all the same (C03 and C04 decide the same rows for their own clauses)
+    lazy_bad = 0
+    for cls, what in (("none", "None"), ("other", "non-boolean")):
+        mmx, _ = dispatch.compare_rows(t, classes=(cls,), kinds=("If", "And", "Or"), tags_result_only=True)
+        for m in mmx:
+            lazy_bad += 1
+            res.violation("C02|lazy-cell|%s|%s" % (m["kind"], cls),
+                          "%s with a %s condition / operand does not yield what the table defines (a type error)" % (m["kind"], what),
+                          {"missing_paths": m["missing"][:4], "unexpected_paths": m["unexpected"][:4]})
     import rewrite
     rw_cov = rewrite.apply(res, f, "C02")
     res.coverage = {
